@@ -374,4 +374,381 @@ theorem build_visitStmts (cfg : Config) (F G : Val → M Val) : ∀ (l : List St
     exact ⟨s' :: ss, rfl, ⟨hrel, hrels⟩, ⟨Fresh.ext hext' hfr, hfrs⟩, hk'', GExt.trans hext hext', by rw [hm', hm]⟩
 end
 
+/-! ### The circuit level -/
+
+/-- registers, aliases and single-qubit aliases: what `circuit.registers` holds -/
+def isRegLike : Val → Bool
+  | .regF _ _ => true
+  | .regA _ _ => true
+  | .regS _ _ _ _ _ => true
+  | .qubit _ _ _ => true
+  | _ => false
+
+/-- the fields of the accumulator `build_circuit` does not touch when it processes a header object -/
+structure SameBut (a a' : Acc) : Prop where
+  st : a'.st = a.st
+  macros : a'.macros = a.macros
+  stmts : a'.stmts = a.stmts
+  natives : a'.natives = a.natives
+
+theorem step_usepulses {cfg : Config} {inject : Option (List (String × GateDef))} {f : Nat} {acc acc' : Acc}
+    {u : String × String} (ha : cfg.autoload = false)
+    (h : circuitStep cfg .off inject f acc (useSx u) = .ok acc') :
+    u.2 = "*" ∧ SameBut acc acc' ∧ acc'.usepulses = acc.usepulses ++ [u.1] ∧ acc'.constants = acc.constants ∧
+      acc'.registers = acc.registers := by
+  unfold circuitStep at h
+  obtain ⟨p, hp, h⟩ := bind_ok h
+  obtain ⟨o, st⟩ := p
+  cases f with
+  | zero => simp [useSx, buildAny, throw_eq] at hp
+  | succ f =>
+    simp only [useSx, buildAny, anyStep,
+      show ("usepulses" = "gate") = False by decide, show ("usepulses" = "sequential_block") = False by decide,
+      show ("usepulses" = "block") = False by decide, show ("usepulses" = "parallel_block") = False by decide,
+      show ("usepulses" = "unscheduled_block") = False by decide, show ("usepulses" = "subcircuit_block") = False by decide,
+      show ("usepulses" = "loop") = False by decide, show ("usepulses" = "case") = False by decide,
+      show ("usepulses" = "branch") = False by decide, show ("usepulses" = "macro") = False by decide,
+      false_or, if_false, if_true] at hp
+    by_cases hstar : isStar (.str u.2) = true
+    · simp only [hstar, Bool.not_true, Bool.false_eq_true, if_false, bind, Except.bind, pure, Except.pure] at hp
+      cases hp
+      simp only [stepTail, ha, Bool.false_eq_true, if_false, pure, Except.pure] at h
+      cases h
+      refine ⟨by simpa [isStar] using hstar, ⟨rfl, rfl, rfl, rfl⟩, rfl, rfl, rfl⟩
+    · simp [hstar, throw_eq, bind, Except.bind] at hp
+
+theorem step_val {cfg : Config} {inject : Option (List (String × GateDef))} {f : Nat} {acc acc' : Acc} {v : Val}
+    (h : circuitStep cfg .off inject f acc (.val v) = .ok acc') :
+    SameBut acc acc' ∧ acc'.usepulses = acc.usepulses ∧
+      ((isConst v = true ∧ acc'.constants = acc.constants ++ [v] ∧ acc'.registers = acc.registers) ∨
+       (isRegLike v = true ∧ acc'.registers = acc.registers ++ [v] ∧ acc'.constants = acc.constants)) := by
+  unfold circuitStep at h
+  obtain ⟨p, hp, hs⟩ := bind_ok h
+  clear h
+  obtain ⟨o, st⟩ := p
+  have hp' : buildAny cfg .off f acc.ctx (.val v) acc.st = (do let w ← buildVal acc.ctx f (.val v); pure (.val w, acc.st)) := by
+    cases f <;> rfl
+  rw [hp'] at hp
+  obtain ⟨w, hw, hp⟩ := bind_ok hp
+  cases hp
+  have hwv : w = v := by
+    cases v <;> first | (simp only [buildVal, pure, Except.pure] at hw; cases hw; rfl) | (simp [buildVal, throw_eq] at hw)
+  subst hwv
+  cases w <;> simp only [stepTail, throw_eq] at hs <;> first
+    | (cases hs)
+    | (obtain ⟨ctx', _, hs⟩ := bind_ok hs
+       simp only [pure, Except.pure] at hs
+       cases hs
+       first
+        | exact ⟨⟨rfl, rfl, rfl, rfl⟩, rfl, Or.inl ⟨rfl, rfl, rfl⟩⟩
+        | exact ⟨⟨rfl, rfl, rfl, rfl⟩, rfl, Or.inr ⟨rfl, rfl, rfl⟩⟩)
+
+theorem SameBut.refl (a : Acc) : SameBut a a := ⟨rfl, rfl, rfl, rfl⟩
+theorem SameBut.trans {a b c : Acc} (h1 : SameBut a b) (h2 : SameBut b c) : SameBut a c :=
+  ⟨h2.st.trans h1.st, h2.macros.trans h1.macros, h2.stmts.trans h1.stmts, h2.natives.trans h1.natives⟩
+
+theorem loop_usepulses {cfg : Config} {inject : Option (List (String × GateDef))} {f : Nat} (ha : cfg.autoload = false) :
+    ∀ (us : List (String × String)) (acc acc' : Acc), circuitLoop cfg .off inject f acc (us.map useSx) = .ok acc' →
+    (∀ u ∈ us, u.2 = "*") ∧ SameBut acc acc' ∧ acc'.usepulses = acc.usepulses ++ us.map (·.1) ∧
+      acc'.constants = acc.constants ∧ acc'.registers = acc.registers := by
+  intro us
+  induction us with
+  | nil =>
+    intro acc acc' h
+    simp only [List.map_nil, circuitLoop, pure, Except.pure] at h; cases h
+    exact ⟨by simp, SameBut.refl _, by simp, rfl, rfl⟩
+  | cons u us ih =>
+    intro acc acc' h
+    simp only [List.map_cons, circuitLoop] at h
+    obtain ⟨a1, h1, h⟩ := bind_ok h
+    obtain ⟨hu, hs, hup, hc, hr⟩ := step_usepulses ha h1
+    obtain ⟨hus, hs', hup', hc', hr'⟩ := ih a1 acc' h
+    refine ⟨?_, hs.trans hs', by rw [hup', hup]; simp, hc'.trans hc, hr'.trans hr⟩
+    intro x hx
+    rcases List.mem_cons.1 hx with rfl | hx
+    · exact hu
+    · exact hus x hx
+
+theorem loop_consts {cfg : Config} {inject : Option (List (String × GateDef))} {f : Nat} :
+    ∀ (vs : List Val) (acc acc' : Acc), (∀ v ∈ vs, isConst v = true) →
+    circuitLoop cfg .off inject f acc (vs.map BSx.val) = .ok acc' →
+    SameBut acc acc' ∧ acc'.usepulses = acc.usepulses ∧ acc'.constants = acc.constants ++ vs ∧
+      acc'.registers = acc.registers := by
+  intro vs
+  induction vs with
+  | nil =>
+    intro acc acc' _ h
+    simp only [List.map_nil, circuitLoop, pure, Except.pure] at h; cases h
+    exact ⟨SameBut.refl _, rfl, by simp, rfl⟩
+  | cons v vs ih =>
+    intro acc acc' hc h
+    simp only [List.map_cons, circuitLoop] at h
+    obtain ⟨a1, h1, h⟩ := bind_ok h
+    obtain ⟨hs, hup, hcase⟩ := step_val h1
+    have hv := hc v (by simp)
+    obtain ⟨hs', hup', hcs, hrs⟩ := ih a1 acc' (fun w hw => hc w (by simp [hw])) h
+    rcases hcase with ⟨_, h2, h3⟩ | ⟨h2, _, _⟩
+    · exact ⟨hs.trans hs', hup'.trans hup, by rw [hcs, h2]; simp, hrs.trans h3⟩
+    · cases v <;> simp [isConst, isRegLike] at hv h2
+
+theorem loop_regs {cfg : Config} {inject : Option (List (String × GateDef))} {f : Nat} :
+    ∀ (vs : List Val) (acc acc' : Acc), (∀ v ∈ vs, isRegLike v = true) →
+    circuitLoop cfg .off inject f acc (vs.map BSx.val) = .ok acc' →
+    SameBut acc acc' ∧ acc'.usepulses = acc.usepulses ∧ acc'.registers = acc.registers ++ vs ∧
+      acc'.constants = acc.constants := by
+  intro vs
+  induction vs with
+  | nil =>
+    intro acc acc' _ h
+    simp only [List.map_nil, circuitLoop, pure, Except.pure] at h; cases h
+    exact ⟨SameBut.refl _, rfl, by simp, rfl⟩
+  | cons v vs ih =>
+    intro acc acc' hc h
+    simp only [List.map_cons, circuitLoop] at h
+    obtain ⟨a1, h1, h⟩ := bind_ok h
+    obtain ⟨hs, hup, hcase⟩ := step_val h1
+    have hv := hc v (by simp)
+    obtain ⟨hs', hup', hrs, hcs⟩ := ih a1 acc' (fun w hw => hc w (by simp [hw])) h
+    rcases hcase with ⟨h2, _, _⟩ | ⟨_, h2, h3⟩
+    · cases v <;> simp [isConst, isRegLike] at hv h2
+    · exact ⟨hs.trans hs', hup'.trans hup, by rw [hrs, h2]; simp, hcs.trans h3⟩
+
+/-! ### Macros and statements at circuit level -/
+
+/-- `visit_Macro` of either visitor -/
+def visitMacro (F G : Val → M Val) (m : Macro) : M BSx := do
+  let b ← visitStmt F G m.body
+  pure (macroSx m b)
+
+def MacroRel (F G : Val → M Val) (m m' : Macro) : Prop :=
+  m'.name = m.name ∧ m'.params = m.params.map (fun p => (p.1, Kind.none)) ∧ Rel F G m.body m'.body
+
+theorem mapM_macroParam : ∀ (ps : List (String × Kind)),
+    (ps.map (fun p => BSx.str p.1)).mapM macroParam = .ok (ps.map (fun p => (p.1, Kind.none))) := by
+  intro ps
+  induction ps with
+  | nil => rfl
+  | cons p ps ih => simp [List.mapM_cons, macroParam, ih, bind, Except.bind, pure, Except.pure]
+
+/-- the fields of the accumulator the body phase does not touch -/
+structure SameHdr (a a' : Acc) : Prop where
+  constants : a'.constants = a.constants
+  registers : a'.registers = a.registers
+  usepulses : a'.usepulses = a.usepulses
+  natives : a'.natives = a.natives
+
+theorem SameHdr.refl (a : Acc) : SameHdr a a := ⟨rfl, rfl, rfl, rfl⟩
+theorem SameHdr.trans {a b c : Acc} (h1 : SameHdr a b) (h2 : SameHdr b c) : SameHdr a c :=
+  ⟨h2.constants.trans h1.constants, h2.registers.trans h1.registers, h2.usepulses.trans h1.usepulses,
+    h2.natives.trans h1.natives⟩
+
+theorem step_macro {cfg : Config} {inject : Option (List (String × GateDef))} {f : Nat} {acc acc' : Acc}
+    {F G : Val → M Val} {m : Macro} {e : BSx} (hv : visitMacro F G m = .ok e) (hk : GKeys acc.st.gctx)
+    (h : circuitStep cfg .off inject f acc e = .ok acc') :
+    ∃ m', acc'.macros = acc.macros ++ [m'] ∧ MacroRel F G m m' ∧ GKeys acc'.st.gctx ∧
+      GExt acc.st.gctx acc'.st.gctx ∧ acc'.stmts = acc.stmts ∧ SameHdr acc acc' := by
+  unfold visitMacro at hv
+  obtain ⟨b, hb, hv⟩ := bind_ok hv
+  simp only [pure, Except.pure] at hv
+  cases hv
+  unfold circuitStep at h
+  obtain ⟨p, hp, hs⟩ := bind_ok h
+  clear h
+  obtain ⟨o, st⟩ := p
+  cases f with
+  | zero => simp [macroSx, buildAny, throw_eq] at hp
+  | succ f =>
+    have hlen : ¬ (BSx.str m.name :: (m.params.map (fun p => BSx.str p.1) ++ [b])).length < 2 := by simp
+    simp only [macroSx, buildAny, anyStep,
+      show ("macro" = "gate") = False by decide, show ("macro" = "sequential_block") = False by decide,
+      show ("macro" = "block") = False by decide, show ("macro" = "parallel_block") = False by decide,
+      show ("macro" = "unscheduled_block") = False by decide, show ("macro" = "subcircuit_block") = False by decide,
+      show ("macro" = "loop") = False by decide, show ("macro" = "case") = False by decide,
+      show ("macro" = "branch") = False by decide, false_or, if_false, if_true, hlen, strOf, pure_bind,
+      List.dropLast_concat, List.getLast?_concat] at hp
+    by_cases hl : (List.lookup m.name acc.st.gctx).isSome = true
+    · simp [hl, throw_eq, bind, Except.bind] at hp
+    · simp only [hl, Bool.false_eq_true, if_false, mapM_macroParam, bind, Except.bind, pure, Except.pure] at hp
+      cases hb' : buildAny cfg .off f (acc.ctx.withParams (m.params.map (fun p => (p.1, Kind.none)))) b acc.st with
+      | error err => simp [hb'] at hp
+      | ok q =>
+        obtain ⟨ob, st'⟩ := q
+        simp only [hb'] at hp
+        obtain ⟨body', rfl, hrel, hfr, hk', hx, hm⟩ := build_visitStmt cfg F G m.body b f _ acc.st st' ob hb hk hb'
+        cases body' with
+        | block par sub it body =>
+          simp only [Except.ok.injEq, Prod.mk.injEq] at hp
+          obtain ⟨rfl, rfl⟩ := hp
+          simp only [stepTail, rebuildMacro, rebuild_fresh _ _ hfr, bind, Except.bind, pure, Except.pure,
+            Bool.false_eq_true, if_false] at hs
+          have hl' : ¬ (List.lookup m.name st'.gctx).isSome = true := by
+            intro hc
+            simp only [throw_eq, hc, if_true] at hs
+            cases hs
+          simp only [hl', Bool.false_eq_true, if_false] at hs
+          cases hs
+          refine ⟨_, rfl, ⟨rfl, rfl, hrel⟩, ?_, ?_, rfl, ⟨rfl, rfl, rfl, rfl⟩⟩
+          · intro n e he
+            simp only [List.lookup] at he
+            split at he
+            · cases he
+              rename_i heq
+              simpa [GEntry.toDef] using (beq_iff_eq.1 heq).symm
+            · exact hk' n e he
+          · intro n e he
+            have he' := hx n e he
+            simp only [List.lookup]
+            split
+            · rename_i heq
+              have : n = m.name := beq_iff_eq.1 heq
+              subst this
+              rw [he'] at hl'
+              simp at hl'
+            · exact he'
+        | gate _ _ _ => simp [throw_eq] at hp
+        | loop _ _ => simp [throw_eq] at hp
+
+theorem step_stmt {cfg : Config} {inject : Option (List (String × GateDef))} {f : Nat} {acc acc' : Acc}
+    {F G : Val → M Val} {s : Stmt} {e : BSx} (hv : visitStmt F G s = .ok e) (hk : GKeys acc.st.gctx)
+    (h : circuitStep cfg .off inject f acc e = .ok acc') :
+    ∃ s', acc'.stmts = acc.stmts ++ [s'] ∧ Rel F G s s' ∧ GKeys acc'.st.gctx ∧
+      GExt acc.st.gctx acc'.st.gctx ∧ acc'.macros = acc.macros ∧ SameHdr acc acc' := by
+  unfold circuitStep at h
+  obtain ⟨p, hp, hs⟩ := bind_ok h
+  clear h
+  obtain ⟨o, st⟩ := p
+  obtain ⟨s', rfl, hrel, _, hk', hx, _⟩ := build_visitStmt cfg F G s e f _ acc.st st o hv hk hp
+  simp only [stepTail, pure, Except.pure] at hs
+  cases hs
+  exact ⟨s', rfl, hrel, hk', hx, rfl, ⟨rfl, rfl, rfl, rfl⟩⟩
+
+theorem loop_macros {cfg : Config} {inject : Option (List (String × GateDef))} {f : Nat} {F G : Val → M Val} :
+    ∀ (ms : List Macro) (es : List BSx) (acc acc' : Acc), ms.mapM (visitMacro F G) = .ok es → GKeys acc.st.gctx →
+    circuitLoop cfg .off inject f acc es = .ok acc' →
+    ∃ ms', acc'.macros = acc.macros ++ ms' ∧ List.Forall₂ (MacroRel F G) ms ms' ∧ GKeys acc'.st.gctx ∧
+      acc'.stmts = acc.stmts ∧ SameHdr acc acc' := by
+  intro ms
+  induction ms with
+  | nil =>
+    intro es acc acc' hv hk h
+    simp only [List.mapM_nil, pure, Except.pure] at hv; cases hv
+    simp only [circuitLoop, pure, Except.pure] at h; cases h
+    exact ⟨[], by simp, List.Forall₂.nil, hk, rfl, SameHdr.refl _⟩
+  | cons m ms ih =>
+    intro es acc acc' hv hk h
+    simp only [List.mapM_cons] at hv
+    obtain ⟨e, he, hv⟩ := bind_ok hv
+    obtain ⟨es', hes', hv⟩ := bind_ok hv
+    cases hv
+    simp only [circuitLoop] at h
+    obtain ⟨a1, h1, h⟩ := bind_ok h
+    obtain ⟨m', hm, hrel, hk1, _, hst, hh⟩ := step_macro he hk h1
+    obtain ⟨ms', hms, hrels, hk2, hst', hh'⟩ := ih es' a1 acc' hes' hk1 h
+    exact ⟨m' :: ms', by rw [hms, hm]; simp, List.Forall₂.cons hrel hrels, hk2, hst'.trans hst, hh.trans hh'⟩
+
+theorem loop_stmts {cfg : Config} {inject : Option (List (String × GateDef))} {f : Nat} {F G : Val → M Val} :
+    ∀ (l : List Stmt) (es : List BSx) (acc acc' : Acc), visitStmts F G l = .ok es → GKeys acc.st.gctx →
+    circuitLoop cfg .off inject f acc es = .ok acc' →
+    ∃ ss, acc'.stmts = acc.stmts ++ ss ∧ RelList F G l ss ∧ GKeys acc'.st.gctx ∧
+      acc'.macros = acc.macros ∧ SameHdr acc acc' := by
+  intro l
+  induction l with
+  | nil =>
+    intro es acc acc' hv hk h
+    simp only [visitStmts, pure, Except.pure] at hv; cases hv
+    simp only [circuitLoop, pure, Except.pure] at h; cases h
+    exact ⟨[], by simp, trivial, hk, rfl, SameHdr.refl _⟩
+  | cons s l ih =>
+    intro es acc acc' hv hk h
+    simp only [visitStmts] at hv
+    obtain ⟨e, he, hv⟩ := bind_ok hv
+    obtain ⟨es', hes', hv⟩ := bind_ok hv
+    cases hv
+    simp only [circuitLoop] at h
+    obtain ⟨a1, h1, h⟩ := bind_ok h
+    obtain ⟨s', hs, hrel, hk1, _, hmac, hh⟩ := step_stmt he hk h1
+    obtain ⟨ss, hss, hrels, hk2, hmac', hh'⟩ := ih es' a1 acc' hes' hk1 h
+    exact ⟨s' :: ss, by rw [hss, hs]; simp, ⟨hrel, hrels⟩, hk2, hmac'.trans hmac, hh.trans hh'⟩
+
+/-! ### The whole rebuild -/
+
+/-- what the rebuild makes of the circuit-level S-expression of either visitor -/
+structure Rebuilt (F G : Val → M Val) (c : Circuit) (regs : List Val) (body : List Stmt) (c' : Circuit) : Prop where
+  usepulses : c'.usepulses = c.usepulses
+  constants : c'.constants = c.constants
+  registers : c'.registers = regs
+  macros : List.Forall₂ (MacroRel F G) c.macros c'.macros
+  body : ∃ ss, c'.body = .block false false (.int 1) ss ∧ RelList F G body ss
+  natives : (c.natives = [] ∧ c'.natives = []) ∨
+    (c.natives ≠ [] ∧ ∃ d, normNatives c.natives = .ok d ∧ c'.natives = d.map (·.2))
+
+theorem build_circuitSx {F G : Val → M Val} {c c' : Circuit} {regs : List Val} {body : List Stmt} {em es : List BSx}
+    (hm : c.macros.mapM (visitMacro F G) = .ok em) (hs : visitStmts F G body = .ok es)
+    (hc : ∀ v ∈ c.constants, isConst v = true) (hr : ∀ v ∈ regs, isRegLike v = true)
+    (h : build (rebuildCfg c) (circuitSx c regs em es) = .ok c') : Rebuilt F G c regs body c' := by
+  rw [C07_memo_transparent] at h
+  unfold buildNoMemo buildWith at h
+  obtain ⟨inject, hinj, h⟩ := bind_ok h
+  simp only [circuitSx, buildCore] at h
+  obtain ⟨acc, hloop, h⟩ := bind_ok h
+  simp only [pure, Except.pure] at h
+  cases h
+  -- the injected gate set
+  have hnat : (c.natives = [] ∧ inject = none) ∨ (c.natives ≠ [] ∧ ∃ d, normNatives c.natives = .ok d ∧ inject = some d) := by
+    unfold Config.inject rebuildCfg at hinj
+    cases hn : c.natives with
+    | nil => simp [hn, pure, Except.pure] at hinj; exact Or.inl ⟨rfl, hinj.symm⟩
+    | cons g gs =>
+      simp only [hn, List.isEmpty_cons, Bool.false_eq_true, if_false] at hinj
+      obtain ⟨d, hd, hinj⟩ := bind_ok hinj
+      simp only [pure, Except.pure] at hinj
+      cases hinj
+      exact Or.inr ⟨by simp, d, hd, rfl⟩
+  have hk0 : GKeys ((inject.getD []).map (fun p => (p.1, GEntry.gdef p.2))) := by
+    intro n e hl
+    rcases hnat with ⟨_, rfl⟩ | ⟨_, d, hd, rfl⟩
+    · simp at hl
+    · obtain ⟨g, rfl, hmem⟩ := lookup_map_wrapG (l := d) hl
+      exact (normNatives_natOK hd).keys _ hmem
+  -- the five phases
+  rw [circuitLoop_append] at hloop
+  obtain ⟨a4, h4', h5⟩ := bind_ok hloop
+  rw [circuitLoop_append] at h4'
+  obtain ⟨a3, h3', h4⟩ := bind_ok h4'
+  rw [circuitLoop_append] at h3'
+  obtain ⟨a2, h2', h3⟩ := bind_ok h3'
+  rw [circuitLoop_append] at h2'
+  obtain ⟨a1, h1, h2⟩ := bind_ok h2'
+  obtain ⟨hstar, s1, u1, c1, r1⟩ := loop_usepulses (by rfl) _ _ _ h1
+  obtain ⟨s2, u2, c2, r2⟩ := loop_consts _ _ _ hc h2
+  obtain ⟨s3, u3, r3, c3⟩ := loop_regs _ _ _ hr h3
+  have hk3 : GKeys a3.st.gctx := by rw [s3.st, s2.st, s1.st]; exact hk0
+  obtain ⟨ms', hms, hmrel, hk4, st4, hh4⟩ := loop_macros _ _ _ _ hm hk3 h4
+  obtain ⟨ss, hss, hsrel, _, mac5, hh5⟩ := loop_stmts _ _ _ _ hs hk4 h5
+  refine ⟨?_, ?_, ?_, ?_, ?_, ?_⟩
+  · simp only [Acc.toCircuit]
+    rw [hh5.usepulses, hh4.usepulses, u3, u2, u1]
+    simp only [List.nil_append, List.map_map]
+    conv => rhs; rw [← List.map_id c.usepulses]
+    apply List.map_congr_left
+    intro u hu
+    have := hstar u hu
+    obtain ⟨a, b⟩ := u
+    simp only [] at this
+    simp [this]
+  · simp only [Acc.toCircuit]
+    rw [hh5.constants, hh4.constants, c3, c2, c1]; simp
+  · simp only [Acc.toCircuit]
+    rw [hh5.registers, hh4.registers, r3, r2, r1]; simp
+  · simp only [Acc.toCircuit]
+    rw [mac5, hms, s3.macros, s2.macros, s1.macros]; simpa using hmrel
+  · refine ⟨ss, ?_, hsrel⟩
+    simp only [Acc.toCircuit]
+    rw [hss, st4, s3.stmts, s2.stmts, s1.stmts]; simp
+  · simp only [Acc.toCircuit]
+    rw [hh5.natives, hh4.natives, s3.natives, s2.natives, s1.natives]
+    rcases hnat with ⟨hn, rfl⟩ | ⟨hn, d, hd, rfl⟩
+    · exact Or.inl ⟨hn, rfl⟩
+    · exact Or.inr ⟨hn, d, hd, rfl⟩
+
 end Jaqal.FillIn
